@@ -346,10 +346,10 @@ func c05Deterministic(c *Ctx) {
 	// sort before the xattr encode loop
 	sorts := calls(fn, named("sort.Strings", "sort.Slice", "sort.SliceStable", "slices.Sort"))
 	okSort := false
-	for _, e := range calls(fn, suffixed("FormatEncoder).Encode")) {
-		if typeName(encodedType(e)) == "desync.FormatXAttr" {
+	for _, e := range encodeSites(fn) {
+		if typeName(e.typ) == "desync.FormatXAttr" {
 			for _, s := range sorts {
-				if instrDominates(s.(ssa.Instruction), e.(ssa.Instruction)) && hasOrigin(s.Common().Args[0], func(o string) bool { return o == "call:builtin:append#0" || o == "makeslice" }) {
+				if instrDominates(s.(ssa.Instruction), e.at) && hasOrigin(s.Common().Args[0], func(o string) bool { return o == "call:builtin:append#0" || o == "makeslice" }) {
 					okSort = true
 				}
 			}
